@@ -68,7 +68,7 @@ let handle (toks : Stdlib.String.t list) : Stdlib.String.t =
      proved = the configuration of the theorems (c06g_guards_from_source), norecheck = without the test in followCheckSome *)
   | ["stale_attempt"; which; aof] ->
       let cfg = (match which with
-        | "norecheck" -> { c_top = true; c_check = false; c_cmd = true; c_aofg = false; c_flagg = false }
+        | "norecheck" -> { c_top = true; c_check = false; c_cmd = true; c_aofg = true; c_flagg = true }
         | _ -> proved_cfg) in
       let aofb = (aof = "1") in
       let r k = [Npos XH; Npos (Conv.pos_of_int k); Npos XH; Npos XH] in
@@ -84,4 +84,18 @@ let handle (toks : Stdlib.String.t list) : Stdlib.String.t =
       let sent = (match phase_of w2 i0 with Some (PChecked (_, _)) -> true | _ -> false) in
       Printf.sprintf "aof=%d data=%s caught_up=%s" (if sent then 1 else 0) (if w2.w_data = w1.w_data then "kept" else "changed")
         (Conv.bool_str w2.w_cup)
+  (* stale_flag <proved|pinned> : the schedule "leader A has an empty log; generation 1 passes followCheckSome and its AOF 0 is
+     held; FOLLOW B, generation 2 has handled one of B's two records; A's AOF reply is let through": the server-wide flag
+     before and after that reply *)
+  | ["stale_flag"; which] ->
+      let cfg = (match which with "pinned" -> pinned_cfg | _ -> proved_cfg) in
+      let r k = [Npos XH; Npos (Conv.pos_of_int k); Npos XH; Npos XH] in
+      let lb = [r 5; r 6] in
+      let run w es = grun (fun b -> b) bytes_eqb (Conv.z_of_int 524288) [] toy_app cfg true proved_ops w es in
+      let w0 = { w_data = { d_file = []; d_mem = []; d_aofsz = Z0 }; w_cup = false; w_cur = O; w_atts = [] } in
+      let i0 = O and i1 = S O in
+      let w1 = run w0 [GFollow; GTopCheck i0; GClear i0; GServer (i0, []); GCheck (i0, []);
+                       GFollow; GTopCheck i1; GClear i1; GServer (i1, lb); GCheck (i1, lb); GAof (i1, lb); GDeliver i1] in
+      let w2 = run w1 [GAof (i0, [])] in
+      Printf.sprintf "before=%s after=%s" (Conv.bool_str w1.w_cup) (Conv.bool_str w2.w_cup)
   | _ -> "?unknown"
